@@ -33,6 +33,7 @@ fn dispatch(cmd: &str, args: &[&str]) -> String {
         "nsig" => loadseq::run_nsig(args),
         "wobs" => loadseq::run_wobs(args),
         "ghws" => ghws::run(args),
+        "ghwreg" => ghws::run_reg(args),
         "serde" => serde_rt::run_path(args),
         "serdev" => serde_rt::run_vcd(args),
         "serdej" => serde_rt::run_json(args),
